@@ -199,6 +199,21 @@ func cmdCheck(id string, args []string) int {
 				r := results[i]
 				fmt.Fprintf(os.Stderr, "[%s] paths=%d final=%d(unsat %d, sat %d) feas=%d unknown=%d verdicts=%d wall=%.1fs err=%q\n",
 					r.Name, r.Stats.Paths, r.Stats.Final, r.Stats.FinalUnsat, r.Stats.FinalSat, r.Stats.Feasibility, r.Stats.Unknown, len(r.Verdicts), r.Wall.Seconds(), r.Err)
+				type kv struct {
+					k string
+					v int
+				}
+				var sites []kv
+				for k, v := range r.Stats.ForkSites {
+					sites = append(sites, kv{k, v})
+				}
+				sort.Slice(sites, func(i, j int) bool { return sites[i].v > sites[j].v })
+				for i, s := range sites {
+					if i >= 12 {
+						break
+					}
+					fmt.Fprintf(os.Stderr, "      forks %6d  %s\n", s.v, s.k)
+				}
 			}
 		}(i, h)
 	}
@@ -544,6 +559,9 @@ func cmdReplay(id string, args []string) int {
 	if err := json.Unmarshal(buf, &c); err != nil {
 		fmt.Fprintln(os.Stderr, err)
 		return 2
+	}
+	if c.Tier != "" {
+		os.Setenv("VERIF_TIER", c.Tier)
 	}
 	pkgs := pkgsWithHarness(id, propertyPackages[id])
 	eng, err := loadEngine(pkgs, Options{MaxInstrs: 1, Workers: 1, TimeoutMs: 1000})
